@@ -20,7 +20,8 @@ The medium
   machines.  Its *fate* comes from the script: "deliver", "lose" (nobody hears it) or "corrupt" (the
   receiver's driver reports nfc.clf.TransmissionError, as a CRC failure would).  A frame is heard only by
   a port that is WAITING, listening, and tuned to the frame's bit rate; otherwise it is lost (logged
-  `heard=False`).
+  `heard=False`).  A fourth fate, "trunc:k", delivers only the first k octets of the frame (a driver that hands
+  over a short frame without reporting an error).
 * Virtual time: the clock only advances when no port is RUNNING; then the WAITING port with the earliest
   deadline times out (initiator side: nfc.clf.TimeoutError after exactly the timeout it asked for; a port
   in listen_* returns None at its deadline; a sleeping port wakes up).  Running code costs no virtual time,
@@ -256,7 +257,10 @@ class Air(object):
         q = p.peer
         fr = Frame(len(self.log), p.name, q.name, brty, data, DELIVER, False, self.clock.now, kind)
         fate = self.fates(fr) if self.fates is not None else DELIVER
-        if fate not in (DELIVER, LOSE, CORRUPT):
+        cut = None
+        if isinstance(fate, str) and fate.startswith("trunc:"):
+            cut = int(fate[6:])
+        elif fate not in (DELIVER, LOSE, CORRUPT):
             raise ValueError("unknown fate %r" % (fate,))
         fr.fate = fate
         hears = q.state == WAITING and q.listening and brty in q.brtys and q.inbox is None
@@ -265,7 +269,10 @@ class Air(object):
         if self.on_frame is not None:
             self.on_frame(fr)
         if fr.heard:
-            q.inbox = ("data", bytearray(data), brty) if fate == DELIVER else ("corrupt",)
+            if cut is not None:
+                q.inbox = ("data", bytearray(data)[:cut], brty)      # the driver hands over a short frame
+            else:
+                q.inbox = ("data", bytearray(data), brty) if fate == DELIVER else ("corrupt",)
             q.state = RUNNING
             q.listening = False
             self.cv.notify_all()
